@@ -8,6 +8,7 @@
 //! in, built with hook H1) -> `glue.rs` derived from the generated Rust with syn
 //! -> a cargo package `DIR/wNNN`.  `DIR/index.json` lists what was produced.
 mod analyze;
+mod c08;
 mod emit;
 mod emit_res;
 
@@ -27,13 +28,19 @@ struct GenOpts {
     merge_equal: bool,
     hashmap: bool,
     raw_strings: bool,
+    /// `--async` directives (C08); empty: every function bound as the WIT declares it
+    async_: Vec<String>,
 }
 
 impl GenOpts {
     fn json(&self) -> Value {
-        json!({"ownership": self.ownership, "std_feature": self.std_feature, "std_enabled": self.std_enabled,
+        let mut v = json!({"ownership": self.ownership, "std_feature": self.std_feature, "std_enabled": self.std_enabled,
                "merge_structurally_equal_types": self.merge_equal, "map_type": if self.hashmap { "std::collections::HashMap" } else { "default" },
-               "raw_strings": self.raw_strings})
+               "raw_strings": self.raw_strings});
+        if !self.async_.is_empty() {
+            v["async"] = json!(self.async_);
+        }
+        v
     }
     fn from_json(v: &Value) -> GenOpts {
         let own = match v["ownership"].as_str().unwrap_or("owning") {
@@ -48,6 +55,7 @@ impl GenOpts {
             merge_equal: v["merge_structurally_equal_types"].as_bool().unwrap_or(false),
             hashmap: v["map_type"].as_str() == Some("std::collections::HashMap"),
             raw_strings: v["raw_strings"].as_bool().unwrap_or(false),
+            async_: v["async"].as_array().map(|a| a.iter().filter_map(|x| x.as_str().map(String::from)).collect()).unwrap_or_default(),
         }
     }
     fn to_opts(&self) -> wit_bindgen_rust::Opts {
@@ -66,6 +74,9 @@ impl GenOpts {
             o.merge_structurally_equal_types = Some(Some(true));
         }
         o.generate_all = true;
+        for d in &self.async_ {
+            o.async_.push(d);
+        }
         o
     }
     /// all combinations the property quantifies over (HashMap needs std)
@@ -79,7 +90,7 @@ impl GenOpts {
                             if hashmap && !std_enabled {
                                 continue;
                             }
-                            v.push(GenOpts { ownership, std_feature, std_enabled, merge_equal, hashmap, raw_strings });
+                            v.push(GenOpts { ownership, std_feature, std_enabled, merge_equal, hashmap, raw_strings, async_: vec![] });
                         }
                     }
                 }
@@ -221,8 +232,28 @@ fn main() {
 "#
 }
 
-fn cargo_toml(name: &str, opts: &GenOpts, crates: &str, repo: &str) -> String {
+fn cargo_toml(name: &str, opts: &GenOpts, crates: &str, repo: &str, async_mode: bool) -> String {
     let default = if opts.std_enabled { "[\"std\"]" } else { "[]" };
+    if async_mode {
+        // C08: the async runtime (feature `async`) + the mock component-model host (rt-host, through c08-host)
+        return format!(
+            r#"[package]
+name = "{name}"
+version = "0.0.0"
+edition = "2021"
+
+[features]
+default = {default}
+std = []
+
+[dependencies]
+wit-bindgen = {{ path = "{repo}/crates/guest-rust", default-features = false, features = ["std", "bitflags", "realloc", "async"] }}
+rsguest-host = {{ path = "{crates}/rsguest-host" }}
+rsguest-support = {{ path = "{crates}/rsguest-support" }}
+c08-host = {{ path = "{crates}/c08-host" }}
+"#
+        );
+    }
     format!(
         r#"[package]
 name = "{name}"
@@ -280,6 +311,10 @@ fn raw_strings_defect(resolve: &wit_parser::Resolve, world: wit_parser::WorldId)
 }
 
 fn build_world(dir: &Path, name: &str, src: &WorldSrc, opts: &GenOpts, crates: &str, repo: &str, avoided: &mut std::collections::BTreeMap<String, u64>) -> Value {
+    build_world_ex(dir, name, src, opts, crates, repo, avoided, false)
+}
+
+fn build_world_ex(dir: &Path, name: &str, src: &WorldSrc, opts: &GenOpts, crates: &str, repo: &str, avoided: &mut std::collections::BTreeMap<String, u64>, async_mode: bool) -> Value {
     let mut opts = opts.clone();
     let opts = &mut opts;
     let mut entry = json!({"name": name, "origin": src.origin, "tags": src.tags, "wit": src.wit});
@@ -331,18 +366,19 @@ fn build_world(dir: &Path, name: &str, src: &WorldSrc, opts: &GenOpts, crates: &
         }
     };
     let opts_json = opts.json().to_string();
-    let glue = emit::emit(&an, &src.wit, &world_name, &opts_json);
+    let glue = emit::emit(&an, &src.wit, &world_name, &opts_json, async_mode);
     let src_dir = dir.join(name).join("src");
     fs::create_dir_all(&src_dir).unwrap();
-    write_if_changed(&dir.join(name).join("Cargo.toml"), &cargo_toml(name, opts, crates, repo));
+    write_if_changed(&dir.join(name).join("Cargo.toml"), &cargo_toml(name, opts, crates, repo, async_mode));
     write_if_changed(&dir.join(name).join("world.wit"), &src.wit);
     write_if_changed(&src_dir.join("bindings.rs"), bindings);
     write_if_changed(&src_dir.join("glue.rs"), &glue.text);
-    write_if_changed(&src_dir.join("main.rs"), main_rs());
+    write_if_changed(&src_dir.join("main.rs"), &if async_mode { main_rs().replace("rsguest_host::run(&bindings::verif_glue::TABLES)", "c08_host::run(&bindings::verif_glue::TABLES, &bindings::verif_glue::ASYNC_TABLES)") } else { main_rs().to_string() });
     entry["status"] = json!("ok");
     entry["notes"] = json!(glue.notes.iter().chain(an.unsupported.iter()).collect::<Vec<_>>());
     entry["counts"] = json!({"structs": an.structs.len(), "enums": an.enums.len(), "flags": an.flags.len(), "handles": an.handles.len(),
         "traits": an.traits.len(), "wrappers": an.wrappers.len(), "imports": an.imports.len(), "exports": an.exports.len(),
+        "async_wrappers": an.wrappers.iter().filter(|w| w.is_async).count(), "callbacks": an.callbacks.len(),
         "bindings_bytes": bindings.len()});
     entry
 }
@@ -368,6 +404,10 @@ fn main() {
     let mut avoided: std::collections::BTreeMap<String, u64> = Default::default();
     avoided.insert("maps together with world-level functions (`WitMap` not in scope at the bindings root: does not compile)".into(), 0);
 
+    if mode == "async" {
+        c08::run(&args, dir, seed, count, &crates, &repo);
+        return;
+    }
     if let Some(witfile) = args.get("wit") {
         // replay / hand-written world
         let wit = fs::read_to_string(witfile).expect("read --wit");
